@@ -103,6 +103,8 @@ fn ty_j<'tcx>(tcx: TyCtxt<'tcx>, t: Ty<'tcx>, depth: usize) -> J {
             o.push(("of".into(), ty_j(tcx, *e, depth + 1)));
             if let Some(n) = n.try_to_target_usize(tcx) {
                 o.push(("n".into(), J::Num(n as i128)));
+            } else if let ty::ConstKind::Param(p) = n.kind() {
+                o.push(("n_param".into(), J::Str(p.name.to_string())));
             }
         }
         ty::Slice(e) => {
@@ -247,12 +249,24 @@ fn dump<'tcx>(tcx: TyCtxt<'tcx>) -> J {
                     | DefKind::TyAlias | DefKind::Mod => vis_str(tcx, tcx.visibility(did)),
                     _ => "?".to_string(),
                 };
-                items.push(J::Obj(vec![
+                let mut it = vec![
                     ("path".into(), J::Str(tcx.def_path_str(did))),
                     ("kind".into(), J::Str(format!("{:?}", kind))),
                     ("vis".into(), J::Str(vis)),
                     ("reachable".into(), J::Bool(eff.is_reachable(ldid))),
-                ]));
+                ];
+                if matches!(kind, DefKind::Static { .. }) {
+                    // what makes a static a carrier of state between calls
+                    let sty = tcx.type_of(did).instantiate_identity().skip_norm_wip();
+                    let env = ty::TypingEnv::post_analysis(tcx, did);
+                    it.push(("static".into(), J::Bool(true)));
+                    it.push(("ty".into(), J::Str(ty_str(sty))));
+                    it.push(("mut".into(), J::Bool(tcx.is_mutable_static(did))));
+                    it.push(("thread_local".into(), J::Bool(tcx.is_thread_local_static(did))));
+                    it.push(("freeze".into(), J::Bool(sty.is_freeze(tcx, env))));
+                    it.push(("span".into(), J::Str(span_str(tcx, tcx.def_span(did)))));
+                }
+                items.push(J::Obj(it));
             }
             _ => {}
         }
@@ -351,6 +365,14 @@ fn fn_j<'tcx>(
         }
     }
     o.push(("generic_types".into(), J::Arr(gts)));
+    let mut gcs = Vec::new();
+    for i in 0..generics.count() {
+        let p = generics.param_at(i, tcx);
+        if matches!(p.kind, ty::GenericParamDefKind::Const { .. }) {
+            gcs.push(J::Str(p.name.to_string()));
+        }
+    }
+    o.push(("generic_consts".into(), J::Arr(gcs)));
 
     o.push(("body".into(), body_j(tcx, did, body)));
     // promoted constants' bodies are not dumped; they are evaluated at use sites.
@@ -543,6 +565,13 @@ impl<'a, 'tcx> Cx<'a, 'tcx> {
             }
             _ => {}
         }
+        if let mir::Const::Ty(_, ct) = c.const_ {
+            if let ty::ConstKind::Param(p) = ct.kind() {
+                // a const generic parameter used as a value
+                o.push(("v".into(), J::Obj(vec![("cparam".into(), J::Str(p.name.to_string()))])));
+                return J::Obj(o);
+            }
+        }
         let v = match c.const_.eval(tcx, self.env, DUMMY_SP) {
             Ok(cv) => const_value_j(tcx, cv, ty),
             Err(_) => J::Obj(vec![("opaque".into(), J::s("eval failed"))]),
@@ -564,6 +593,21 @@ impl<'a, 'tcx> Cx<'a, 'tcx> {
             .filter_map(|g| g.as_type().map(|t| ty_j(tcx, t, 1)))
             .collect();
         o.push(("targs".into(), J::Arr(targs)));
+        // const generic arguments, in order
+        let cargs: Vec<J> = args
+            .iter()
+            .filter_map(|g| g.as_const())
+            .map(|ct| match ct.try_to_target_usize(tcx) {
+                Some(n) => J::Num(n as i128),
+                None => match ct.kind() {
+                    ty::ConstKind::Param(p) => J::Obj(vec![("cparam".into(), J::Str(p.name.to_string()))]),
+                    _ => J::Null,
+                },
+            })
+            .collect();
+        if !cargs.is_empty() {
+            o.push(("cargs".into(), J::Arr(cargs)));
+        }
         if matches!(tcx.def_kind(did), DefKind::AssocFn | DefKind::Fn) {
             o.push(("name".into(), J::Str(tcx.item_name(did).to_string())));
         }
@@ -609,6 +653,13 @@ impl<'a, 'tcx> Cx<'a, 'tcx> {
                 (
                     "n".into(),
                     n.try_to_target_usize(tcx).map(|n| J::Num(n as i128)).unwrap_or(J::Null),
+                ),
+                (
+                    "n_param".into(),
+                    match n.kind() {
+                        ty::ConstKind::Param(p) => J::Str(p.name.to_string()),
+                        _ => J::Null,
+                    },
                 ),
             ]),
             mir::Rvalue::Ref(_, bk, p) => J::Obj(vec![
